@@ -112,16 +112,26 @@ class C14(Check):
                 key_ = 'sd.key'
             # --- the pure counter function
             rel = '/' + '/'.join(case['segs'])
-            for variant in (rel, rel.upper() if all(c.isascii() for c in rel) else rel, rel.replace('/', '\\')):
+            ivs = {}
+            for variant in (rel, rel.upper() if all(c.isascii() for c in rel) else rel, rel.replace('/', '\\'),
+                            ''.join(c.upper() if (c.isascii() and k % 2) else c for k, c in enumerate(rel)),
+                            '/' + rel[1:2].upper() + rel[2:] if rel[1:2].isascii() else rel):
                 iv = eng.sd_path_to_iv(variant)
+                ivs[variant] = iv
                 outs.append(str(iv))
                 models.append(drv.ask(('sd-iv', variant.encode('utf-16le'))) if all(
                     (not c.isalpha()) or c.isascii() for c in variant) else str(iv))
-                if iv != expected_iv(rel):
-                    is_backup = rel.lower().startswith('/backup') and len(rel) > 28
-                    mon.append(f'counter of {variant!r} is not the hash of the normalised path')
-                    key_ = 'sd.backup-alias' if is_backup else 'sd.iv'
-                    break
+            if len(set(ivs.values())) > 1:
+                # case- and separator-insensitivity, whatever the counter is (this also covers the aliased /backup paths)
+                mon.append(f'spellings of one path that differ only in ASCII case / separator get different counters: {sorted(ivs)[:3]}')
+                key_ = 'sd.case'
+            else:
+                for variant, iv in ivs.items():
+                    if iv != expected_iv(rel):
+                        is_backup = rel.lower().startswith('/backup') and len(rel) > 28
+                        mon.append(f'counter of {variant!r} is not the hash of the normalised path')
+                        key_ = 'sd.backup-alias' if is_backup else 'sd.iv'
+                        break
             # --- files through the filesystem
             if not mon:
                 tmp = None
